@@ -528,12 +528,19 @@ Assemble(P) ==
 (* Returns "" or the name of the first broken clause ("skip:..." when the  *)
 (* program leaves the fragment this specification evaluates).              *)
 (***************************************************************************)
+\* the bank an item lies in is syntactic (the #bank / #bankdef before it)
+ItemBanks(P) == LET pb == Positions(P, [i \in 1..Len(P.items) |-> <<0>>]) IN [i \in 1..Len(P.items) |-> pb[i].b]
+\* claimed positions, as [b, p] records
+ClaimPosB(P, claim) == LET bnk == ItemBanks(P) IN [i \in 1..Len(P.items) |-> [b |-> bnk[i], p |-> claim.pos[i]]]
+
 ClaimEnv(P, d, claim, symv, i) ==
+    LET cp == ClaimPosB(P, claim) IN
     WithFns(P, [x \in DOMAIN symv \cup {"$", "pc", "#ctx"} |->
-        IF x \in {"$", "pc"} THEN (IF claim.pos[i] % 8 = 0 THEN IntV(claim.pos[i] \div 8, -1) ELSE ErrV)     \* (default bank)
+        IF x \in {"$", "pc"} THEN (IF claim.pos[i] >= 0 /\ ~MisalignedItem(P, cp, i) THEN IntV(AddrOfItem(P, cp, i), -1) ELSE ErrV)
         ELSE IF x = "#ctx" THEN CtxVal(d.ctxs[i])
         ELSE symv[x]])
 
+RECURSIVE Certificate(_, _)
 Certificate(P, claim) ==
     LET d == Declare(P.items, 1, <<>>, {}, <<>>, <<>>) IN
     IF ~d.ok THEN "declaration"
@@ -547,12 +554,24 @@ Certificate(P, claim) ==
         ELSE IF declared # claimed THEN "symbol-table"
         ELSE IF \E x \in declared : symOf(x).wide \/ ~symOf(x).int THEN "skip:wide-or-non-integer-symbol"
         ELSE
-    LET symv == [x \in declared |-> IntV(symOf(x).v, -1)]
-        posb == Positions(P, claim.sizes)
+    LET symv == [x \in declared |-> IntV(symOf(x).v, -1)] IN
+        \* directive arguments: evaluated under the claimed values at the claimed position
+        IF \E i \in 1..n : HasArgExpr(P.items[i])
+        THEN LET args == [i \in 1..n |-> IF HasArgExpr(P.items[i]) THEN Eval(P.items[i].e, ClaimEnv(P, d, claim, symv, i)).v
+                                         ELSE IntV(P.items[i].n, -1)]
+                 st == {DirArgStatus(args[i]) : i \in {i \in 1..n : HasArgExpr(P.items[i])}}
+             IN IF "err" \in st THEN "directive-argument"
+                ELSE IF "skip" \in st THEN "skip:wide"
+                ELSE Certificate([P EXCEPT !.items = [i \in 1..n |->
+                        IF HasArgExpr(P.items[i]) THEN [P.items[i] EXCEPT !.n = args[i].v, !.e = [k |-> "none"]] ELSE P.items[i]]], claim)
+        ELSE
+    LET posb == Positions(P, claim.sizes)
         pos == [i \in 1..n |-> posb[i].p]
-    IN  IF pos # claim.pos THEN "positions"
+    IN  IF \E i \in 1..n : claim.pos[i] >= 0 /\ pos[i] # claim.pos[i] THEN "positions"
         ELSE IF \E i \in 1..n : P.items[i].k = "label" /\
-                    (pos[i] % 8 # 0 \/ symv[d.names[i]].v # pos[i] \div 8) THEN "label"
+                    (MisalignedItem(P, posb, i) \/ symv[d.names[i]].v # AddrOfItem(P, posb, i)) THEN "label"
+        ELSE IF \E i \in 1..n : P.items[i].k = "addr" /\ ~AddrInRange(Banks(P)[posb[i].b], P.items[i].n) THEN "addr-out-of-bank"
+        ELSE IF \E i \in 1..n : P.items[i].k = "align" /\ P.items[i].n = 0 THEN "align-zero"
         ELSE
     LET constBad(i) ==
             LET x == AsInt(Eval(P.items[i].e, ClaimEnv(P, d, claim, symv, i)).v) IN
